@@ -139,7 +139,15 @@ func ReadUint32(rd io.Reader) (uint32, error) {
 // ReadNBytes reads n bytes from the reader
 func ReadNBytes(n int, rd io.Reader) ([]byte, error) {
 	var b []byte = make([]byte, n)
-	num, err := rd.Read(b)
+	var num int
+	var err error
+
+	// a single Read may return fewer bytes than requested without being at the end
+	for num < n && err == nil {
+		var nn int
+		nn, err = rd.Read(b[num:])
+		num += nn
+	}
 
 	// if num is correct, we are not interested in io.EOF errors
 	if num == n {
